@@ -353,8 +353,8 @@ def run(chk):
     chk.rule("R12.2", "field flow through orbit(); writer scale × reader scale = 1; designator and epoch encodings inverse")
     chk.rule("R12.3", "validation dominates parsing; three rejections; checksum definition; grouping of lines")
     chk.rule("R12.4", "epoch written from and read as UTC")
-    r12_1(chk)
-    r12_2(chk)
-    r12_3(chk)
-    r12_4(chk)
+    chk.guard(r12_1, chk)
+    chk.guard(r12_2, chk)
+    chk.guard(r12_3, chk)
+    chk.guard(r12_4, chk)
     chk.assume("each value fits its field (catalogue numbers ≤ 5 digits, 0 ≤ e < 1, angles < 360°, n < 100 rev/day, ...)")
